@@ -1,52 +1,211 @@
-"""Suite hist-api / tree-walk: random histories, model vs implementation after every op."""
+"""Suites over operation histories of BitBirch (model vs implementation after EVERY op):
+  hist-api    public observations (clusters sorted/unsorted, counts, centroids, assignments)
+  tree-walk   additionally the whole internal tree (entries, buffers+dtype, caches, chain)
+  boundary    long single-fit histories whose inner entries cross 255 -> 256 members
+  exhaustive  all fingerprint sequences of small length/width at branching factor 2
+"""
+import itertools
 import json
 import random
 import sys
 import time
 
 import hist
+import oracles_hist
 from common import eval_cases
+from pipeline import Result
 
 
-def run_suite(name, seed, n_cases, walk, max_ops=8, max_rows=20, shard=100):
-    rng = random.Random(seed)
-    hs, rs, terms = [], [], []
-    stats = {"ops": {}, "errs": 0, "rows": 0, "crit": {}, "max_depth": 0, "splits": 0}
-    for _ in range(n_cases):
-        h = hist.gen_history(rng, max_ops=max_ops, max_rows=max_rows)
+def _depth(t):
+    d = 0
+    while t is not None and t[0] == "inner":
+        d += 1
+        t = t[2][0][1]
+    return d
+
+
+def _run(name, hs, walk, shard=100):
+    rs, terms = [], []
+    stats = {"ops": {}, "errs": 0, "rows": 0, "crit": {}, "max_depth": 0, "histories": len(hs),
+             "inner_splits_seen": 0}
+    for h in hs:
         r = hist.run_impl(h, walk=True)
-        hs.append(h)
         rs.append(r)
         terms.append(hist.case_term(h, r, walk))
-        stats["crit"][h["cfg"]["crit"]] = stats["crit"].get(h["cfg"]["crit"], 0) + 1
+        c = h["cfg"]["crit"]
+        stats["crit"][c] = stats["crit"].get(c, 0) + 1
         for op, (o, ex) in zip(h["ops"], r):
             stats["ops"][op["op"]] = stats["ops"].get(op["op"], 0) + 1
-            if not o["ok"]:
-                stats["errs"] += 1
+            stats["errs"] += 0 if o["ok"] else 1
             if op["op"] == "fit":
                 stats["rows"] += len(op["rows"])
-            t = o["tree"]
-            d = 0
-            while t is not None and t[0] == "inner":
-                d += 1
-                t = t[2][0][1]
+            d = _depth(o["tree"])
             stats["max_depth"] = max(stats["max_depth"], d)
-    out = eval_cases(name, hist.exp_preamble(), terms, shard=shard)
-    bad = [(i, int(v.strip("()"))) for i, v in enumerate(out) if v.strip() != "(-1)" and v.strip() != "-1"]
-    return hs, rs, bad, stats
+            if d >= 2:
+                stats["inner_splits_seen"] += 1
+    maxn = max([600] + [sum(len(o["rows"]) for o in h["ops"] if o["op"] == "fit") for h in hs])
+    out = eval_cases(name, hist.exp_preamble(maxn + 10), terms, shard=shard)
+    res = Result(name)
+    res.cases = len(hs)
+    res.nontrivial = len({json.dumps(h, sort_keys=True) for h in hs
+                          if sum(len(o["rows"]) for o in h["ops"] if o["op"] == "fit") >= 2})
+    for h, r, v in zip(hs, rs, out):
+        k = int(v.strip().strip("()"))
+        if k != -1:
+            hh = dict(h)
+            hh["ops"] = h["ops"][:k + 1]          # shrink: the prefix up to the first mismatch
+            res.bad.append({"suite": name, "history": hh, "first_mismatch_at_op": k,
+                            "impl_observation": {kk: vv for kk, vv in r[k][0].items() if kk != "tree"},
+                            "impl_error": r[k][1].get("error")})
+    res.stats = stats
+    res.samples = [{"cfg": hs[0]["cfg"], "nf": hs[0]["nf"],
+                    "ops": [o["op"] for o in hs[0]["ops"]]}]
+    return res
+
+
+def gen_histories(seed, n, max_ops=8, max_rows=20):
+    rng = random.Random(seed)
+    return [hist.gen_history(rng, max_ops=max_ops, max_rows=max_rows) for _ in range(n)]
+
+
+def suite_hist_api(seed, tier):
+    n = 150 if tier == "quick" else 4000
+    hs = gen_histories(seed, n, max_ops=10, max_rows=24) + gen_switch(seed, n // 5)
+    return _run("hist-api", hs, walk=False)
+
+
+def suite_tree_walk(seed, tier):
+    n = 120 if tier == "quick" else 2500
+    return _run("tree-walk", gen_histories(seed + 101, n, max_ops=6, max_rows=18), walk=True)
+
+
+def gen_boundary(seed, tier):
+    """fits of ~300-600 near-duplicate rows with common bits at small branching factors:
+    inner entries (and, at threshold 0, leaf clusters) cross 255 -> 256 members"""
+    rng = random.Random(seed + 7)
+    hs = []
+    for k in range(3 if tier == "quick" else 16):
+        nf = rng.choice([5, 8, 11])
+        n = rng.choice([300, 420]) if tier == "quick" else rng.choice([300, 520, 700])
+        base = [1] + [rng.randint(0, 1) for _ in range(nf - 1)]       # bit 0 common to all
+        rows = []
+        for _ in range(n):
+            r = list(base)
+            for j in range(1, nf):
+                if rng.random() < 0.25:
+                    r[j] ^= 1
+            rows.append(r)
+        crit = rng.choice(["diameter", "radius", "tolerance-diameter"])
+        cfg = {"crit": crit, "tol": 0.05 if crit.startswith("tol") else None,
+               "thr": rng.choice([0.0, 0.55, 0.8]) if k else 0.0, "bf": rng.choice([2, 3, 5])}
+        ops = [{"op": "fit", "rows": rows, "labels": None, "form": "unpacked-array", "bad_at": None}]
+        if rng.random() < 0.7:
+            ops.append({"op": "recluster", "iters": 1, "extra": 0.0, "shuffle": False, "seed": 0,
+                        "stop_early": False})
+        if rng.random() < 0.5:
+            ops.append({"op": "refine", "n_largest": 1, "initial_mol": 0})
+        hs.append({"cfg": cfg, "nf": nf, "ops": ops})
+    return hs
+
+
+def gen_exact_boundary(seed, tier):
+    """one cluster of exactly 255 / 256 members (threshold 0), then rebuilt from its buffer"""
+    rng = random.Random(seed + 11)
+    hs = []
+    for n in ([255] if tier == "quick" else [255, 256, 254]):
+        nf = 6
+        rows = [[1 if rng.random() < d else 0 for d in (0.3, 0.45, 0.5, 0.55, 0.7, 0.0)] for _ in range(n)]
+        for tail in ([{"op": "recluster", "iters": 1, "extra": 0.0, "shuffle": False, "seed": 0,
+                       "stop_early": False}],
+                     [{"op": "refine", "n_largest": 0, "initial_mol": 0}]):
+            hs.append({"cfg": {"crit": "diameter", "tol": None, "thr": 0.0, "bf": 3}, "nf": nf,
+                       "ops": [{"op": "fit", "rows": rows, "labels": None,
+                                "form": "unpacked-array", "bad_at": None}] + tail})
+    return hs
+
+
+def gen_switch(seed, n):
+    """grow clusters under a lax pair, then tighten / switch the criterion and keep fitting"""
+    rng = random.Random(seed + 13)
+    hs = []
+    for _ in range(n):
+        nf = rng.choice([8, 12, 16])
+        rows1, protos = hist.gen_fps(rng, rng.randint(8, 20), nf, None, rng.choice([0.15, 0.3]))
+        rows2, _ = hist.gen_fps(rng, rng.randint(6, 16), nf, protos, rng.choice([0.0, 0.05, 0.15]))
+        c1 = rng.choice(["diameter", "radius", "tolerance-diameter", "tolerance-radius"])
+        c2 = rng.choice(hist.CRITS)
+        cfg = {"crit": c1, "tol": 0.05 if c1 in hist.HAS_TOL else None,
+               "thr": rng.choice([0.0, 0.1, 0.2, 0.3]), "bf": rng.choice([2, 3, 5])}
+        ops = [{"op": "fit", "rows": rows1, "labels": None, "form": "unpacked-array", "bad_at": None},
+               {"op": "setcfg", "crit": c2, "tol": rng.choice([0.0, 0.05, 1.0]) if c2 in hist.HAS_TOL else None,
+                "thr": rng.choice([0.5, 0.7, 0.9]), "bf": None},
+               {"op": "fit", "rows": rows2, "labels": None, "form": "unpacked-list", "bad_at": None}]
+        hs.append({"cfg": cfg, "nf": nf, "ops": ops})
+    return hs
+
+
+def suite_boundary(seed, tier):
+    return _run("boundary", gen_boundary(seed, tier) + gen_exact_boundary(seed, tier), walk=True, shard=1)
+
+
+def suite_exhaustive(seed, tier):
+    """every sequence of <= L fingerprints of W bits, bf = 2, all six criteria"""
+    L, Wd = (3, 2) if tier == "quick" else (4, 3)
+    hs = []
+    fps = [list(p) for p in itertools.product([0, 1], repeat=Wd)]
+    rng = random.Random(seed)
+    for seq in itertools.product(fps, repeat=L):
+        for crit in hist.CRITS:
+            cfg = {"crit": crit, "tol": 0.05 if crit in hist.HAS_TOL else None,
+                   "thr": rng.choice([0.0, 0.3, 0.5, 0.7, 1.0]), "bf": 2}
+            # one row per fit call: the full state is compared after every single insertion
+            ops = [{"op": "fit", "rows": [list(r)], "labels": None, "form": "unpacked-array",
+                    "bad_at": None} for r in seq]
+            hs.append({"cfg": cfg, "nf": Wd, "ops": ops})
+    return _run("exhaustive", hs, walk=True, shard=200)
+
+
+# ---------------------------------------------------------------- search on break
+def search_hist(which):
+    """search function for property `which` (a key of oracles_hist.ORACLES)"""
+    def search(seed, tier, failures):
+        cands = []
+        for kind, d in failures:
+            if isinstance(d, dict) and "history" in d:
+                cands.append(d["history"])
+        cands += gen_exact_boundary(seed + 1, "thorough") + gen_switch(seed + 1, 150)
+        cands += gen_boundary(seed + 1, "quick")[:2]
+        cands += gen_histories(seed + 1, 150 if tier == "quick" else 1500, max_ops=10, max_rows=24)
+        for h in cands:
+            try:
+                v = oracles_hist.run_with_oracle(h, which)
+            except Exception as e:      # an oracle crash on a broken tree is itself a finding
+                v = (-1, f"oracle could not run: {type(e).__name__}: {e}")
+            if v:
+                hh = dict(h)
+                if v[0] >= 0:
+                    hh["ops"] = h["ops"][:v[0] + 1]
+                return {"history": hh, "violation": v[1], "after_op": v[0]}
+        return None
+    return search
+
+
+def replay_hist(which):
+    def replay(payload):
+        fi = payload.get("failing_input")
+        if not fi:
+            return True
+        return oracles_hist.run_with_oracle(fi["history"], which) is None
+    return replay
 
 
 if __name__ == "__main__":
     seed = int(sys.argv[1]) if len(sys.argv) > 1 else 1
-    n = int(sys.argv[2]) if len(sys.argv) > 2 else 50
-    t0 = time.time()
-    hs, rs, bad, stats = run_suite("hist-dev", seed, n, walk=True)
-    print("stats", json.dumps(stats))
-    print("time", time.time() - t0, "bad", len(bad))
-    for i, k in bad[:5]:
-        print("CASE", i, "first mismatch at op", k)
-        print(json.dumps(hs[i]["cfg"]), hs[i]["nf"], [o["op"] for o in hs[i]["ops"]])
-        print("impl:", json.dumps(rs[i][k][0])[:1500])
-        print("extra:", json.dumps({kk: vv for kk, vv in rs[i][k][1].items() if kk != "X"})[:500])
-        tr = eval_cases("hist-dev-trace", hist.exp_preamble(), [hist.trace_term(hs[i], rs[i])])
-        print("model trace:", tr[0][:3000])
+    tier = sys.argv[2] if len(sys.argv) > 2 else "quick"
+    for s in (suite_hist_api, suite_tree_walk, suite_boundary, suite_exhaustive):
+        t0 = time.time()
+        r = s(seed, tier)
+        print(r.name, "cases", r.cases, "nontrivial", r.nontrivial, "bad", len(r.bad),
+              "time %.1f" % (time.time() - t0), json.dumps(r.stats)[:300])
+        for b in r.bad[:2]:
+            print(json.dumps(b)[:1500])
